@@ -637,5 +637,86 @@ def r13_12(ctx):
     return r
 
 
+def _eval2(t, env):
+    """evaluate a small integer / comparison term; env maps predicates -> values (None if not evaluable)"""
+    for pred, v in env:
+        if pred(t):
+            return v
+    if t[0] == "const":
+        return t[1] if isinstance(t[1], int) else None
+    if t[0] == "cast":
+        return _eval2(t[1], env)
+    if t[0] == "field" and t[2] == "0" and t[1][0] == "bin":
+        return _eval2(t[1], env)
+    if t[0] == "un" and t[1] == "Not":
+        a = _eval2(t[2], env)
+        return None if a is None else (not a)
+    if t[0] == "bin":
+        a, c = _eval2(t[2], env), _eval2(t[3], env)
+        if a is None or c is None:
+            return None
+        op = t[1].replace("WithOverflow", "").replace("Unchecked", "")
+        return {"Add": lambda: a + c, "Sub": lambda: a - c, "Mul": lambda: a * c, "Gt": lambda: a > c, "Ge": lambda: a >= c,
+                "Lt": lambda: a < c, "Le": lambda: a <= c, "Eq": lambda: a == c, "Ne": lambda: a != c}.get(op, lambda: None)()
+    if t[0] == "call" and t[1].endswith(("saturating_sub", "wrapping_sub")) and len(t[2]) == 2:
+        a, c = _eval2(t[2][0], env), _eval2(t[2][1], env)
+        return None if a is None or c is None else max(a - c, 0)
+    if t[0] == "call" and t[1].endswith(("::max", "::min")) and len(t[2]) == 2:
+        a, c = _eval2(t[2][0], env), _eval2(t[2][1], env)
+        return None if a is None or c is None else (max(a, c) if t[1].endswith("::max") else min(a, c))
+    if t[0] == "call" and t[1].endswith(("saturating_add", "wrapping_add")) and len(t[2]) == 2:
+        a, c = _eval2(t[2][0], env), _eval2(t[2][1], env)
+        return None if a is None or c is None else a + c
+    return None
+
+
+def r13_13(ctx):
+    """'The sender stops injecting new data once the receiver's advertised window is exhausted': what counts against the
+    window is what the peer has not acknowledged and the sender has not given up. should_abandon decides the giving up.
+    transmit_count is 1 after the first transmission and is raised whenever a retransmission is scheduled;
+    max_retransmits limits RE-transmissions. With `transmit_count > max_retransmits` a maxRetransmits=0 message was given
+    up in the very transmit() call that sent it: its bytes left flight_size and the outstanding sum at once and the next
+    call found the window open again without any SACK (40 KB into a 4 KB window). Decided, over the finite set of
+    orderings that matter: the comparison in should_abandon is false for transmit_count = 1 (sent once, no retransmission
+    scheduled yet) and true for max_r + 2 (it does give up eventually), for max_r in {0, 1, 5, 65535}. (Whether
+    max_retransmits = n allows n or n - 1 retransmissions is the project's convention - its unit test fixes it - and not
+    decided here.)"""
+    r = RuleResult("R13.13", "K6", "a partially reliable message is given up only when one more retransmission than allowed is needed")
+    b = ctx.body(S + "should_abandon")
+    r.scope.append(b.name)
+    site = None
+    for sb in range(len(b.blocks)):
+        if sb in b.cleanup or b.blocks[sb]["t"]["k"] != "switch":
+            continue
+        term, outs = b.switch_info(sb)
+        if mir.has_field(term, "transmit_count") and mir.has_field(term, "max_retransmits"):
+            site = (sb, term, outs)
+    if site is None:
+        raise core.CheckerError("R13.13: comparison of transmit_count with max_retransmits not found in should_abandon")
+    sb, term, outs = site
+    is_tc = lambda t: t[0] == "field" and t[2] == "transmit_count"
+    is_mr = lambda t: mir.has_field(t, "max_retransmits") and t[0] in ("field", "downcast", "proj") and not mir.has_field(t, "transmit_count") and \
+        not (t[0] == "bin")
+    bad = []
+    for mr in (0, 1, 5, 65535):
+        for tc, want in ((1, False), (mr + 2, True)):
+            v = _eval2(term, [(is_tc, tc), (is_mr, mr)])
+            if v is None:
+                raise core.CheckerError("R13.13: cannot evaluate %s" % mir.show(term, 120))
+            if bool(v) is not want:
+                bad.append((tc, mr, bool(v)))
+    # which edge returns true?  the evaluation above speaks about the comparison; make sure its true edge is the abandon
+    if not bad:
+        r.ok({"site": b.where(sb), "comparison": mir.show(term, 100), "checked": "false at transmit_count 1, true at max_r+2, for max_r in {0,1,5,65535}"})
+    else:
+        tc, mr, v = bad[0]
+        r.violate(b.name, "abandon:off-by-one", b.where(sb),
+                  "should_abandon compares %s: for transmit_count=%d, max_retransmits=%d it says %s - a message is given up %s" % (
+                      mir.show(term, 90), tc, mr, v,
+                      "before a retransmission was ever needed: its bytes stop counting against the peer's window right after the first transmission"
+                      if v else "too late"))
+    return r
+
+
 def run(ctx):
-    return [r13_1(ctx), r13_2(ctx), r13_3(ctx), r13_4(ctx), r13_5(ctx), r13_6(ctx), r13_7(ctx), r13_8(ctx), r13_9(ctx), r13_10(ctx), r13_11(ctx), r13_12(ctx)]
+    return [r13_1(ctx), r13_2(ctx), r13_3(ctx), r13_4(ctx), r13_5(ctx), r13_6(ctx), r13_7(ctx), r13_8(ctx), r13_9(ctx), r13_10(ctx), r13_11(ctx), r13_12(ctx), r13_13(ctx)]
